@@ -46,6 +46,9 @@ def generate(prop, rng, index, tier):
         c = template["coords"][d]
         if c["dtype"].startswith("i"):
             c["values"] = [int(v) for v in c["values"]]
+        if not c["packed"] and rng.random() < 0.25:
+            # a coordinate variable that declares a fill value (what xarray writes for every float coordinate)
+            c["fill"] = "nan" if c["dtype"].startswith("f") and rng.random() < 0.6 else -32768
     ngrids = rng.randint(1, 4)
     grids = []
     for g in range(ngrids):
@@ -77,6 +80,9 @@ def generate(prop, rng, index, tier):
             # not-a-number and infinite cells are ordinary floating-point values for a grid (kept as text in the scenario)
             for _ in range(rng.choice([1, 1, 2])):
                 vals[rng.randrange(ncell)] = rng.choice(["nan", "nan", "inf", "-inf"])
+        if kind in ("plain", "mixed", "positive") and rng.random() < 0.08:
+            # a genuine value that happens to equal numpy's default fill value for its element type
+            vals[rng.randrange(ncell)] = 999999 if is_int else 1e20
         gdt = "i8" if is_int else "f8"
         if is_int and all(v >= 0 for v in vals) and rng.random() < 0.5:
             gdt = "u8"          # what a read with DataType = Positive Integer produces
@@ -148,7 +154,10 @@ def _make_template(path, t):
                 v.setncattr("add_offset", 40.5)
                 v[:] = numpy.array([40.5 + 0.25 * int(x) for x in c["values"]])
             else:
-                v = ds.createVariable(d, c["dtype"], (d,))
+                kwc = {}
+                if c.get("fill") is not None:
+                    kwc["fill_value"] = float("nan") if c["fill"] == "nan" else c["fill"]
+                v = ds.createVariable(d, c["dtype"], (d,), **kwc)
                 v[:] = numpy.array(c["values"], dtype=c["dtype"])
             for k, a in sorted(c["attrs"].items()):
                 v.setncattr(k, a)
@@ -246,7 +255,7 @@ def execute(sc):
                             res.violate("C18.dims", "C18.dims coordinate-values-changed",
                                         "coordinate %s: %s %r instead of %s %r" % (d, a.dtype, a[:].tolist(), b.dtype, b[:].tolist()))
                             return _finish(sc, res)
-                        if {k: a.getncattr(k) for k in a.ncattrs()} != {k: b.getncattr(k) for k in b.ncattrs()}:
+                        if _attrs(a) != _attrs(b):
                             res.violate("C18.dims", "C18.dims coordinate-attributes-changed", "attributes of %s differ" % d)
                             return _finish(sc, res)
                     for nm in names:
@@ -337,7 +346,7 @@ def execute(sc):
                             for d, n in t2["dims"]:
                                 a, b = ds2.variables[d], ts2.variables[d]
                                 if numpy.asarray(a[:]).tobytes() != numpy.asarray(b[:]).tobytes() or \
-                                        {k: a.getncattr(k) for k in a.ncattrs()} != {k: b.getncattr(k) for k in b.ncattrs()}:
+                                        _attrs(a) != _attrs(b):
                                     res.violate("C18.dims", "C18.dims second-write-coordinates-stale",
                                                 "second write: coordinate %s is %r, the template at that path now has %r"
                                                 % (d, numpy.asarray(a[:]).tolist(), numpy.asarray(b[:]).tolist()))
@@ -386,6 +395,16 @@ def execute(sc):
     finally:
         shutil.rmtree(root, ignore_errors=True)
     return _finish(sc, res)
+
+
+def _attrs(var):
+    """Attributes of a NetCDF variable in a form that compares NaN fill values as equal."""
+    import numpy
+    out = {}
+    for k in var.ncattrs():
+        v = var.getncattr(k)
+        out[k] = v if isinstance(v, str) else (str(numpy.asarray(v).dtype), numpy.asarray(v).tobytes())
+    return out
 
 
 def _judge(res, g, rd, got, err, union, shape, numpy, MPilotError, tag=""):
@@ -440,6 +459,9 @@ def _judge(res, g, rd, got, err, union, shape, numpy, MPilotError, tag=""):
     if kind != want_kind and not (want_kind == "u" and kind == "u"):
         res.violate("C18.read", "C18.read element-kind %s" % (dt or "default"),
                     "DataType %s returned element type %s" % (dt or "(omitted: float by default)", data.dtype))
+        return
+    if want_kind in ("i", "u") and any(v == v and not -2 ** 63 <= v < 2 ** 64 for v in vals):
+        res.observe("values beyond the 64-bit integer range read as an integer type: not representable, not judged")
         return
     if want_kind == "i" and any(isinstance(v, int) and not -2 ** 63 <= v < 2 ** 63 for v in vals):
         res.observe("unsigned values beyond the signed 64-bit range read as Integer: not representable, not judged")
